@@ -528,9 +528,12 @@ def main():
                 if mm:
                     ck.report(f"C19.final-point.{c['kind']}", f"returned point: {mm}", dict(replay, model=jsonable(st)))
                 fs = max(poly_scale(p_, xk) for p_ in c["polys"])
-                if not sq_close(r2i, st["r2"], floor=(1e-7 * fs) ** 2):
+                # a squared norm |v|^2 whose entries carry an absolute error e is off by 2 |v| e sqrt(n) + n e^2
+                e_r = 1e-7 * fs
+                if not sq_close(r2i, st["r2"], floor=2 * math.sqrt(max(float(st["r2"]), 0.0)) * e_r * math.sqrt(K) + K * e_r ** 2):
                     ck.report("C19.final-residual-norm", f"|final_constraint|^2 {r2i!r} vs model {float(st['r2'])!r}", dict(replay, model=jsonable(st)))
-                if not sq_close(d2i, st["d2"], floor=(2 * xtol) ** 2):
+                e_x = 2 * xtol
+                if not sq_close(d2i, st["d2"], floor=2 * math.sqrt(max(float(st["d2"]), 0.0)) * e_x * math.sqrt(D) + D * e_x ** 2):
                     ck.report("C19.final-increment-norm", f"|final_increment|^2 {d2i!r} vs model {float(st['d2'])!r}", dict(replay, model=jsonable(st)))
             elif what == "run":
                 q = lib.decode_optQ(v)
